@@ -154,6 +154,170 @@ def run_and_judge(ctx, family, binp, lines, view, confirm=True):
             ctx.violations.append((c, json.loads(ev), "%d events rejected in family %s" % (len(rej), family)))
 
 
+
+# ------------------------------------------------------------------ sequential histories (Lifecycle)
+def gen_histories(ctx, mode, num, depth):
+    """TLC generates command histories from MC_Life: random simulation seeded
+    with VERIF_SEED ("sim") or every history up to `depth` by BFS ("bfs")."""
+    import re
+    consts = ctx.consts({"MODE": mode, "DEPTH": str(depth), "NS": "7"})
+    key = vlib.sha(vlib.spec_hash(), mode, num, depth, ctx.seed if mode == "sim" else 0)
+    d = vlib.ensure(os.path.join(vlib.CACHE, "gen", "MC_Life-%s-%s" % (mode, key)))
+    outp, statp = os.path.join(d, "hist.ndjson"), os.path.join(d, "stats.json")
+    if os.path.exists(statp):
+        return outp, json.load(open(statp))
+    raw = os.path.join(d, "raw.csv")
+    if os.path.exists(raw):
+        os.remove(raw)
+    if mode == "sim":
+        workers = 8
+        extra = ["-simulate", "num=%d" % ((num + workers - 1) // workers), "-depth", str(depth + 8), "-seed", str(ctx.seed)]
+    else:
+        workers, extra = vlib.NCPU, []
+    r = vlib.run_tlc("MC_Life", vlib.cfg_text("MC_Life.cfg", consts), os.path.join(d, "tlc"), env={"GEN_OUT": raw},
+                     workers=workers, timeout=3000, extra=extra)
+    if r["violated"]:
+        raise MachineryFailure("MC_Life: invariant %s violated on the model (see %s)" % (r["violated"], d))
+    if r["rc"] != 0:
+        raise MachineryFailure("MC_Life failed (rc=%s): %s" % (r["rc"], "\n".join(r["out"].splitlines()[-8:])))
+    n = 0
+    seen = set()
+    with open(outp, "w") as f:
+        for line in open(raw):
+            h = json.loads(line)
+            if h in seen:
+                continue
+            seen.add(h)
+            json.loads(h)
+            f.write(h + "\n")
+            n += 1
+    os.remove(raw)
+    m = re.search(r"The number of states generated: (\d+)", r["out"])
+    states = int(m.group(1)) if m else r["generated"]
+    st = {"spec": "MC_Life", "mode": mode, "histories": n, "states": r["distinct"] or states, "transitions": states,
+          "tlc_wall_s": round(r["wall"], 1), "depth": depth}
+    json.dump(st, open(statp, "w"))
+    return outp, st
+
+
+def lifecycle(ctx, view, variants=("exact", "exact_checks"), bfs=True):
+    import concurrent.futures as cf
+    import subprocess
+    quick = ctx.tier == "quick"
+    sets = [gen_histories(ctx, "sim", 320 if quick else 5000, 12 if quick else 20)]
+    if bfs:
+        sets.append(gen_histories(ctx, "bfs", 0, 2))
+    all_hists = []
+    for p, st in sets:
+        ctx.cov["states"] += st["states"]
+        ctx.cov["transitions"] += st["transitions"]
+        ctx.cov["tlc_runs"].append(st)
+        all_hists.append([json.loads(l) for l in open(p)])
+    if not all_hists[0]:
+        raise MachineryFailure("no histories generated")
+    for variant in variants:
+        # the self-check build (BSPLINE_ADD_TEST_CHECKS) replays the simulated histories only
+        hists = all_hists[0] + (all_hists[1] if bfs and (variant == "exact" or not quick) else [])
+        binp = vlib.build(variant, ["vh_life.cpp"], name="vh_life")
+        wd = vlib.ensure(os.path.join(ctx.work, "life-" + variant))
+        nsh = min(vlib.NCPU, max(1, len(hists) // 20))
+        shards = [hists[i::nsh] for i in range(nsh)]
+
+        def run(si):
+            rejected = []
+            todo = shards[si]
+            steps = 0
+            for attempt in range(12):
+                if not todo:
+                    break
+                sp, tp = os.path.join(wd, "script.%d.ndjson" % si), os.path.join(wd, "trace.%d.ndjson" % si)
+                starts = []
+                with open(sp, "w") as f:
+                    n = 0
+                    for h in todo:
+                        starts.append(n)
+                        f.write('{"op":"Reset"}\n')
+                        for c in h:
+                            f.write(json.dumps(c) + "\n")
+                        n += 1 + len(h)
+                if os.path.exists(tp):
+                    os.remove(tp)
+                try:
+                    p = subprocess.run([binp, sp, tp], stdout=subprocess.PIPE, stderr=subprocess.PIPE, timeout=900)
+                    rc, err = p.returncode, p.stderr.decode(errors="replace")
+                except subprocess.TimeoutExpired:
+                    rc, err = -9, "timeout"
+                got = len(open(tp).read().splitlines()) if os.path.exists(tp) else 0
+                if rc != 0 or got < n:
+                    # crash inside a history: that history is a violation candidate; drop it and go on
+                    hi = max(k for k, s0 in enumerate(starts) if s0 <= got)
+                    rejected.append((todo[hi], got - starts[hi], {"op": "CRASH", "rc": rc, "report": err[-1500:]}))
+                    todo = todo[:hi] + todo[hi + 1:]
+                    continue
+                r = vlib.run_tlc("Trace_Life", vlib.cfg_text("Trace_Life.cfg", {"PROP": view}), os.path.join(wd, "v%d" % si),
+                                 env={"TRACE": tp}, workers=1, xmx="3g", timeout=3000)
+                import re
+                m = re.search(r"The depth of the complete state graph search is (\d+)", r["out"])
+                if not r["completed"] or not m:
+                    raise MachineryFailure("Trace_Life did not complete: %s" % "\n".join(r["out"].splitlines()[-10:]))
+                depth = int(m.group(1))
+                if depth >= n + 1:
+                    steps += n
+                    break
+                # line `depth` (1-based) was not explained by the specification
+                bad = depth - 1
+                hi = max(k for k, s0 in enumerate(starts) if s0 <= bad)
+                ev = json.loads(open(tp).read().splitlines()[bad])
+                rejected.append((todo[hi], bad - starts[hi], ev))
+                steps += starts[hi]
+                todo = todo[hi + 1:]   # everything before was accepted; continue behind the rejected history
+            for f in (sp, tp):
+                if os.path.exists(f):
+                    os.remove(f)
+            return rejected, steps
+
+        with cf.ThreadPoolExecutor(nsh) as ex:
+            results = list(ex.map(run, range(nsh)))
+        for rejected, steps in results:
+            ctx.cov["traces_validated_against_impl"] += steps
+            ctx.cov["evaluations"] += steps
+            for h, pos, ev in rejected:
+                k = vlib.known_match(ctx.prop, ev)
+                if k:
+                    ctx.known.append((k, ev))
+                else:
+                    ctx.violations.append(({"op": "History", "variant": variant, "history": h, "failed_at": pos}, ev,
+                                           "step %d of a %d-command history was not explained by Trace_Life (view %s)" % (pos, len(h), view)))
+    hists = [h for hs in all_hists for h in hs]
+    for h in hists:
+        for c in h[6:]:
+            ctx.cov["per_action"][c["op"]] = ctx.cov["per_action"].get(c["op"], 0) + 1
+        ctx.keys.add(json.dumps([c["op"] for c in h[6:]]))
+    ctx.cov["histories"] = len(hists)
+    if len(ctx.cov["samples"]) < 3:
+        ctx.cov["samples"].append({"history": hists[len(hists) // 2]})
+
+
+def c10(ctx):
+    lifecycle(ctx, "C10")
+    stateless(ctx, "Spl", {"SplUn", "SplBin", "SplLin", "SplNew"}, prop_view="C10")
+    stateless(ctx, "Sup", {"SupBin", "SupNew", "GridNew"}, prop_view="C10")
+
+
+def c14(ctx):
+    lifecycle(ctx, "C14")
+    stateless(ctx, "Spl", {"SplUn", "SplBin", "SplLin", "SplEval"}, prop_view="C14")
+    stateless(ctx, "Ops", {"OpApply", "OpBF"}, prop_view="C14", case_filter=lambda c: c["tag"] in ("expr", "bf"))
+
+
+def c08(ctx):
+    stateless(ctx, "Spl", {"SplBin", "SplLin"}, case_filter=lambda c: not same_grid(c) or c.get("share") == 0)
+    stateless(ctx, "Sup", {"SupBin"})
+    stateless(ctx, "Ops", {"OpApply", "OpBF"}, case_filter=lambda c: c["tag"] == "foreign" or c.get("fshare") == 0)
+    stateless(ctx, "Gen", {"Gen"}, case_filter=lambda c: c["route"] == 1)
+    lifecycle(ctx, "C08", variants=("exact",), bfs=False)
+
+
 # ------------------------------------------------------------------ properties
 def c13(ctx):
     stateless(ctx, "Sup", {"SupRead", "SupIdx", "SupBin", "SupTri", "SupNew", "GridAt", "GridFind", "GridNew"})
@@ -245,6 +409,9 @@ def c19(ctx):
 
 
 PROPS = {
+    "C08": dict(fn=c08, level="model_checking"),
+    "C10": dict(fn=c10, level="model_checking"),
+    "C14": dict(fn=c14, level="model_checking"),
     "C19": dict(fn=c19, level="other"),
     "C01": dict(fn=c01, level="model_checking"),
     "C04": dict(fn=c04, level="model_checking"),
